@@ -112,7 +112,7 @@ CHECKS = {
             "or populated regions; C17.log_growth: each capacity changes at most log2(final)+1 times under any doubling policy; the "
             "unrepaired SliceRegion::merge_regions is shown (by evaluation) to violate the law the repaired one satisfies. PARTIAL by "
             "nature: the allocator, RawVec's policy and the optimiser are runtime facts; the harness's counting allocator and the "
-            "capacities reported by the real crate cover them by sampling. UniverseHeap.C17_*_every_composition: for every vector-backed description of the closed universe.", "§6 C17"),
+            "capacities reported by the real crate cover them by sampling. UniverseHeap.C17_*_every_composition: for every vector-backed description of the closed universe. Props/C17Grows.lean + UniverseGrows.lean: the logarithmic bound for EVERY uncoded composition (collapse, consec, columns, IndexOptimized/IndexList index containers included), per storage identified by a key path because columns insert storages in the middle of the heap_size report; the one exception is stated and proved (the model does not carry the capacity of the Vec of columns: columnsVec_not_cstep, columnsVec_changes_le: at most one change per added column).", "§6 C17"),
     "C18": ("Lean proof (capacity invariant over the whole API; used-bytes monotonicity; structural accounting lemmas) + differential "
             "correspondence with shadow lower bound",
             "C18.used_le_cap, push_monotone, clear_caps, clear_used(_default), every_child_*, lower_bound: for every region reachable "
